@@ -212,7 +212,7 @@ fn builder_inserts(tables: &HashMap<u32, Vec<u8>>, tags: &[u32]) -> String {
     format!("{}|{}", ver, ins.join(";"))
 }
 
-fn run(input: &str) -> String {
+pub fn run(input: &str) -> String {
     let parts: Vec<&str> = input.split('|').collect();
     let res = catch_unwind(AssertUnwindSafe(|| match parts[0] {
         "W" => run_whole(parts[1], parts[2]),
@@ -372,7 +372,7 @@ fn composites_cached(path: &'static str) -> &'static Vec<(u16, Vec<u16>)> {
     *m.entry(path).or_insert_with(|| Box::leak(Box::new(composites(path))))
 }
 
-fn gen(rng: &mut Rng) -> String {
+pub fn gen(rng: &mut Rng) -> String {
     match rng.below(12) {
         0 | 2 | 3 => {
             let (f, n) = *rng.pick(SUBSET_FONTS);
